@@ -194,6 +194,8 @@ func runC12(p *core.Program, r *core.Report) {
 		r.Check(okHi, "R12.2b", name, "token length is the index byte (high = low + int(index[j]))", pos, "high bound is "+core.Describe(sl.High))
 	})
 	r.Floor("R12.2b", "token slices taken in loops", nSl, 3)
+	// "never fake text": token values are cut from the string itself (= C11 R11.5 re-run)
+	r.Borrow("R12.2b", func() { checkDecodedValuesArePieces(p, r, fn) })
 
 	// R12.3: a full index is 1 + 2k bytes; a success return in the full-kind branch must know len(index) is odd
 	fullVal := int64(-1)
